@@ -20,6 +20,8 @@ def run(F, rep):
     rep.run(dt_msp.slice_bounds_tables, F, rep, "C08.3")
     rep.run(dt_msp.from_slice_table, F, rep, "C08.5")
     rep.run(lemmas.lmer_lemmas, F, rep, which={"from_slice"})
+    # ... and the growable string as piece container: `from_slice` starts from `blank(n)`, whose word vector must be the canonical one
+    rep.run(lemmas.dnastring_lemmas, F, rep, which={"new"})
     rep.run(dt_msp.minpos_order_tables, F, rep, "C08.6")
     rep.run(dt_msp.scan_tables, F, rep, "C08.6")
     # the bucket id of a piece is the rank of min_rc of its minimizer when reverse-complement mode is on (MspIntervalP::bucket): the
